@@ -69,11 +69,14 @@ class Module:
         self.aliases = {}
         self._ginit = {}
         cur = None; lab = None; pending_comment = None; cont = None
+        last_comment = None
         for line in text.splitlines():
             if cur is None:
+                if line.startswith("; ") and not line.startswith(("; Function Attrs", "; ModuleID")): last_comment = line[2:].strip()
                 if not line or line[0] in ";!": continue
                 if line.startswith("define "):
                     cur = Function(self, line); self.funcs[cur.name] = cur
+                    cur.pretty = last_comment or ""; last_comment = None     # rustc's demangled name of the function
                     lab = None; continue
                 if line.startswith("declare "):
                     m = re.search(r'@("[^"]+"|[\w.$]+)\(', line)
@@ -280,7 +283,7 @@ class Function:
                 sm = re.search(r'sret\(([^)]*(?:\([^)]*\))?[^)]*)\)', a)
                 if sm: self.sret = (len(self.params), a[a.index("sret(") + 5:].split(")")[0])
                 self.params.append(name); self.param_types.append(ty)
-        self.blocks = {}; self.order = []
+        self.blocks = {}; self.order = []; self.pretty = ""
         self._parsed = {}
     def block(self, lab):
         p = self._parsed.get(lab)
